@@ -671,7 +671,11 @@ class _MathSym:
     def arctan2(self, y, x): return uf("arctan2", y, x)
     def pow(self, x, a): return wrap(x) ** a
     def abs(self, x): return abs(wrap(x))
-    def fn(self, name, *args): return uf(name, *args)
+    def fn(self, name, *args):
+        if not any(is_sym(a) for a in args) and name in CONC_FUNCS:
+            return float(CONC_FUNCS[name](*args))    # all-concrete: same value the code computes
+        return uf(name, *args)
+
     def ite(self, c, a, b): return SymReal(z3.If(fbool(c), lift(a), lift(b)))
     def max(self, a, b): return self.ite(wrap(a) >= b, a, b)
     def min(self, a, b): return self.ite(wrap(a) <= b, a, b)
@@ -1156,7 +1160,8 @@ class UFModule:
             return realfn
 
         def f(*args, **kw):
-            if symbolic_active() and any(is_sym(a) for a in args):
+            if symbolic_active() and any(is_sym(a) or (isinstance(a, _np.ndarray) and a.dtype == object)
+                                         for a in args):
                 return _elementwise(lambda *vs: uf(self._prefix + name, *vs), *args)
             return realfn(*args, **kw)
         return f
